@@ -1605,6 +1605,12 @@ impl Tree {
 
 		// Step 2: Reload in-memory state to match restored files
 
+		// The block cache is keyed by table id (and value-log file id) and offset.
+		// The restore rewinds those ids, so tables and value-log files written from
+		// now on reuse the ids of files of the discarded timeline: without this,
+		// reads of the new files are answered from the old files' cached blocks.
+		self.core.inner.opts.block_cache.clear();
+
 		// Create a new LevelManifest from the current path
 		let new_levels = LevelManifest::new(Arc::clone(&self.core.inner.opts))?;
 
